@@ -78,6 +78,33 @@ def oracle(line: str, obs: Obs):
             if l.startswith("CRASH "):
                 fails.append({"what": "a worker thread terminated abnormally: " + l, "event": ev[:200], "real": l, "kind": l.split(" ")[1]})
                 return fails
+    omark = next((ev for ev, _ in obs.blocks if ev.startswith("mark overlap")), None)
+    if omark is not None:
+        # a peer arriving while work of a lost connection is still around: no request of it is lost -- each gets exactly one answer
+        oc, on, asked, answered = "c" + omark.split(":")[1], False, [], {}
+        for ev, lines in obs.blocks:
+            if ev == omark:
+                on = True
+                continue
+            if not on:
+                continue
+            t = ev.split(" ")
+            if t[0] == "rx" and f"c{t[1]}" == oc:
+                for dmsg in t[2:]:
+                    m = nodecheck.parse_msg(dmsg)
+                    if m["R"] and m["cmd"] == 272:
+                        asked.append(m["hbh"])
+            for l in lines:
+                if l.startswith(f"OUT {oc} "):
+                    d = kv(l)
+                    if d["R"] == "0" and d["cmd"] == "272":
+                        answered[int(d["hbh"])] = answered.get(int(d["hbh"]), 0) + 1
+        bad = [h for h in asked if answered.get(h, 0) != 1]
+        if bad:
+            fails.append({"what": "requests of a peer that connected while work of a lost connection was still queued did not get "
+                                  "exactly one answer each (capacity / requests lost for good)", "event": omark,
+                          "real": f"asked {asked} answered {answered}", "kind": "overlap"})
+        return fails
     mark = next((ev for ev, _ in obs.blocks if ev.startswith("mark probe")), None)
     if mark is None:
         return fails
@@ -345,6 +372,14 @@ def corpus() -> list[str]:
                "hold 0 1", "rx 1 " + nodegen.ccr(540, 541), "eof 1", "hold 0 0"]
         evs += ["handler 0"] * limit
         out.append(cfg + " | " + " | ".join(evs + [f"mark probe:2:{limit}:{limit}:t:700"] + probe_events(2, limit, limit, "t", 700)))
+        # … and the peer that comes next has its first requests queued while that stale request is still waiting
+        evs = ["start fail", "acc", f"rx 1 {cer1}", "rx 1 " + " ".join(nodegen.ccr(520 + 2 * i, 521 + 2 * i) for i in range(limit)),
+               "hold 0 1", "rx 1 " + nodegen.ccr(540, 541), "eof 1"]
+        pe = probe_events(2, limit, limit, "t", 700)
+        pe.insert(4, "hold 0 0")                     # (after the probe's burst has arrived)
+        pe[5:5] = ["handler 0"] * limit              # the slow handlers of the lost connection finish
+        # (not a quiescent point: the probe is not compared with a fresh node, but every request of it gets its one answer)
+        out.append(cfg + " | " + " | ".join(evs + ["mark overlap:2"] + pe + ["tick"]))
         # requests that sat in the receive queue for longer than the slot wait while every slot was busy
         # (no persistent peer here: the clock advances and nothing is to be redialled)
         cfgq = cfg.replace(f"peer:peer2.x,{REALM},1,1,5", f"peer:peer2.x,{REALM},0,0,5")
